@@ -370,7 +370,32 @@ func snippet(b []byte, at, n int) string {
 // expected to end early (everything written so far, then EOF). Which of the clauses of a
 // partial program may be reported is decided by the caller (Node.judge).
 func Judge(m *Model, r *Result, partial bool) []Verdict {
-	var vs []Verdict
+	vs, patched := judgeWith(m, r, partial, true)
+	if !patched || len(vs) == 0 {
+		return vs
+	}
+	// The handler asked for chunked framing or trailers on an HTTP/1.0 request and the head carries
+	// "Transfer-Encoding: chunked". Such a response is accepted when it decodes as the chunked
+	// message it claims to be (above) - and also when it decodes correctly the way a client decodes
+	// an HTTP/1.0 message, ignoring Transfer-Encoding (RFC 7230 section 3.3.1: the field does not
+	// exist in HTTP/1.0; net/http does exactly that): the request was the handler's, not nbio's,
+	// and either way a client gets the handler's response.
+	alt, _ := judgeWith(m, r, partial, false)
+	if len(alt) == 0 {
+		return nil
+	}
+	if !r.State.Chunked {
+		// wrong under both readings: described under the one that matches the framing the response
+		// writer itself chose (which of the two descriptions is reported, not whether)
+		return alt
+	}
+	return vs
+}
+
+// judgeWith is Judge for one way of reading an HTTP/1.0 response that carries Transfer-Encoding:
+// chunked at the handler's request (patch10: as the chunked message it claims to be; else as
+// HTTP/1.0, ignoring the field). patched tells whether that choice mattered.
+func judgeWith(m *Model, r *Result, partial, patch10 bool) (vs []Verdict, patched bool) {
 	add := func(clause, format string, a ...interface{}) {
 		d := fmt.Sprintf(format, a...)
 		if len(d) > 500 {
@@ -380,7 +405,7 @@ func Judge(m *Model, r *Result, partial bool) []Verdict {
 	}
 	if r.Hang {
 		add("hang", "the request did not complete within the watchdog time")
-		return vs
+		return vs, false
 	}
 	if r.Panic != "" {
 		if r.PanicOp >= 0 && r.PanicOp < len(r.Prog.Ops) {
@@ -389,11 +414,11 @@ func Judge(m *Model, r *Result, partial bool) []Verdict {
 		} else {
 			add("panic after-handler", "flushResponse / release panicked %s", r.Panic)
 		}
-		return vs
+		return vs, false
 	}
 	if !r.HandlerRan {
 		add("handler-not-run", "parse error %q", r.ParseErr)
-		return vs
+		return vs, false
 	}
 	// return values of the body operations
 	off := 0
@@ -428,10 +453,10 @@ func Judge(m *Model, r *Result, partial bool) []Verdict {
 			wire = wire[:r.NextWire]
 		}
 	}
-	d, err := decodeInto(judgeScratch, wire, chunkAsked, next)
+	d, err := decodeInto(judgeScratch, wire, chunkAsked && patch10, next)
 	if err != nil {
 		add("wire-unparseable", "http.ReadResponse: %v; wire starts %s", err, snippet(r.Wire, 0, 80))
-		return vs
+		return vs, false
 	}
 	resp := d.Resp
 	if resp.StatusCode != m.Status && !(m.Status == 0 && resp.StatusCode == 200) && !(m.StatusAlt != 0 && resp.StatusCode == m.StatusAlt) {
@@ -522,5 +547,5 @@ func Judge(m *Model, r *Result, partial bool) []Verdict {
 			add("trailer-invented", "trailer %s=%q on the wire, handler never set it", TrailerKey, got)
 		}
 	}
-	return vs
+	return vs, d.Patched
 }
